@@ -28,7 +28,7 @@ def gen_cases(ck):
                       "nframes": int(ck.rng.integers(2, 7)), "field": ["random", "affine", "flow"][int(ck.rng.integers(3))],
                       "bound_factor": 0.4, "renumber": True, "cm": False, "times": ["equal", "unequal", "unequal"][int(ck.rng.integers(3))],
                       "b_matrix": ["velocity", "velocity", None][int(ck.rng.integers(3))], "adimensional": bool(ck.rng.integers(2)),
-                      "vnorm": float(ck.rng.choice([1.0, 1.0, 0.1, 7.5])), "drop_vertex": bool(ck.rng.integers(3) == 0)})
+                      "vnorm": float(ck.rng.choice([1.0, 1.0, 0.1, 7.5, 0.0, -2.0])), "drop_vertex": bool(ck.rng.integers(3) == 0)})
     return cases
 
 
@@ -100,36 +100,50 @@ def run_case(ck, case, reqs, pending):
     t = int(rng.integers(n))
     impl.quiet(f.build_force_matrix, when=t)
     fm = f.force_matrices[t]
-    kw = {"adimensional_velocity": case["adimensional"], "velocity_normalization": case["vnorm"]}
-    if case["b_matrix"]:
-        kw["b_matrix"] = case["b_matrix"]
-    if case["adimensional"] and case["b_matrix"] == "velocity" and fm.map_vid_to_row and \
-            all(float(np.hypot(*f.mesh.calculate_velocity(v, t))) == 0.0 for v in fm.map_vid_to_row):
-        # every used junction is at rest: the mean speed is zero and the adimensional right-hand side is 0/0 — outside the property
-        ck.count("rejected_zero_mean_speed")
-        ck.case(case, nontrivial=False)
-        return f, frames, s
-    b, avg = fm.set_velocity_matrix(f.mesh, **kw)
-    b = np.array(b, dtype=float).flatten()
     rowmap = {int(k): int(v) for k, v in fm.map_vid_to_row.items()}
     nrows = fm.matrix.shape[0]
     vel = {v: f.mesh.calculate_velocity(v, t) for v in rowmap}
-    raw = np.zeros(nrows)
-    if case["b_matrix"] == "velocity":
-        for v, r in rowmap.items():
-            raw[r], raw[r + 1] = vel[v][0], vel[v][1]
-        mean_speed = float(np.mean([math.hypot(*vel[v]) for v in rowmap])) if rowmap else 1.0
-    else:
-        mean_speed = 1.0
-    exp_avg = mean_speed if (case["adimensional"] and case["b_matrix"] == "velocity" and rowmap) else 1
-    if abs(avg - exp_avg) > 1e-12 * abs(exp_avg):
-        ck.fail("with adimensional velocities the divisor is the mean junction speed of the frame", f"got {avg} want {exp_avg}", case)
-    exp_b = raw / exp_avg * case["vnorm"]
-    if len(b) != nrows or (nrows > 0 and np.max(np.abs(b - exp_b)) > 1e-12 * (np.max(np.abs(exp_b)) + 1e-200)):
-        ck.fail("each used junction's velocity components are the right-hand sides of its own x- and y-equation (all zero in static mode)",
-                f"max deviation {np.max(np.abs(b - exp_b)) if len(b) == nrows else 'shape'}", case)
+    at_rest = bool(rowmap) and all(float(np.hypot(*vel[v])) == 0.0 for v in rowmap)
+    # every option combination on the same frame: the case's own first, then the grid (b_matrix x adimensional x normalisation,
+    # including 0, negative and the option left out)
+    combos = [(case["b_matrix"], case["adimensional"], case["vnorm"])]
+    combos += [(bm, ad, vn) for bm in ("velocity", None) for ad in (False, True) for vn in (None, 0.0, 0.25, -2.0, 1)]
+    for bm_opt, adim, vnorm in combos:
+        kw = {"adimensional_velocity": adim}
+        if vnorm is not None:
+            kw["velocity_normalization"] = vnorm
+        if bm_opt:
+            kw["b_matrix"] = bm_opt
+        if adim and bm_opt == "velocity" and at_rest:
+            # every used junction is at rest: the mean speed is zero and the adimensional right-hand side is 0/0 — outside the property
+            ck.count("rejected_zero_mean_speed")
+            continue
+        b, avg = fm.set_velocity_matrix(f.mesh, **kw)
+        b = np.array(b, dtype=float).flatten()
+        raw = np.zeros(nrows)
+        if bm_opt == "velocity":
+            for v, r in rowmap.items():
+                raw[r], raw[r + 1] = vel[v][0], vel[v][1]
+            mean_speed = float(np.mean([math.hypot(*vel[v]) for v in rowmap])) if rowmap else 1.0
+        else:
+            mean_speed = 1.0
+        exp_avg = mean_speed if (adim and bm_opt == "velocity" and rowmap) else 1
+        tagc = f"options b_matrix={bm_opt} adimensional={adim} velocity_normalization={vnorm}"
+        if abs(avg - exp_avg) > 1e-12 * abs(exp_avg):
+            ck.fail("with adimensional velocities the divisor is the mean junction speed of the frame", f"{tagc}: got {avg} want {exp_avg}", case)
+            break
+        exp_b = raw / exp_avg * (1 if vnorm is None else vnorm)
+        if len(b) != nrows or (nrows > 0 and np.max(np.abs(b - exp_b)) > 1e-12 * (np.max(np.abs(exp_b)) + 1e-200)):
+            ck.fail("each used junction's velocity components are the right-hand sides of its own x- and y-equation (all zero in static mode)",
+                    f"{tagc}: max deviation {np.max(np.abs(b - exp_b)) if len(b) == nrows else 'shape'}", case)
+            break
+        ck.count("rhs_option_combinations")
     ck.count("rhs_" + str(case["b_matrix"])); ck.count("adimensional_" + str(case["adimensional"]))
     if case["b_matrix"] == "velocity":
+        impl.quiet(fm.set_velocity_matrix, f.mesh, b_matrix="velocity")
+        raw = np.zeros(nrows)
+        for v, r in rowmap.items():
+            raw[r], raw[r + 1] = vel[v][0], vel[v][1]
         reqs.append({"op": "place_velocities", "nrows": nrows, "rows": [[r, [rat(vel[v][0]), rat(vel[v][1])]] for v, r in rowmap.items()]})
         pending.append(("place", case, [float(x) for x in np.array(fm.velocity_matrix_dimensional).flatten()], raw))
     # system velocity per frame
